@@ -36,8 +36,8 @@ type subject struct {
 	Safe, Deep bool
 	// Random: outputs are not bit-reproducible (fresh randomness inside); Work returns verdicts.
 	Random  bool
-	Rebound []string // normalised path prefixes the constructor is asked to change
-	Scratch []string // normalised path prefixes of scratch memory (contents / over-allocation not compared)
+	Rebound []string        // normalised path prefixes the constructor is asked to change
+	Scratch []string        // normalised path prefixes of scratch memory (contents / over-allocation not compared)
 	Make    func() any      // a fresh original (pointer)
 	Copy    func(o any) any // the constructor under test (returns a pointer)
 	// Work runs the differential workload on x (original or copy) and returns its results. It must
@@ -53,6 +53,9 @@ type subject struct {
 	// NoStruct: skip the parallel field comparison (constructors whose result is not the same type
 	// configuration, e.g. AtLevel of another level).
 	NoStruct bool
+	// FreshStructOnly: no field comparison between a used original and its copy (objects whose scratch
+	// state is spread over many nested evaluators).
+	FreshStructOnly bool
 }
 
 func (s *subject) key() string { return s.Ctor + "/" + s.Cfg }
@@ -251,20 +254,27 @@ func runSubject(c *eng.Ctx, s *subject) {
 	}
 	ss := snapshotShared(o, cp)
 	c.Count("shared_regions_watched", int64(len(ss.regs)))
+	copyFailed := false
 	judge := func(what string, ref, got outs, class string) {
+		if copyFailed && class != "original-disturbed" {
+			return // one defect, one signature: the first difference of the copy has been reported
+		}
 		c.Eval(len(got))
 		c.Count("differential_steps", int64(len(got)))
 		if p, msg := hasPanic(got); p {
+			copyFailed = copyFailed || class != "original-nondeterministic" && class != "original-disturbed"
 			c.Violate(sigOf(s.Ctor, class, "panic"), fmt.Sprintf("%s [%s]: %s panics where the reference does not: %s", s.Ctor, s.Cfg, what, msg), nil)
 			return
 		}
 		if s.Random {
 			if ok, w := allOK(got); !ok {
+				copyFailed = copyFailed || class != "original-nondeterministic" && class != "original-disturbed"
 				c.Violate(sigOf(s.Ctor, class, opOf(w)), fmt.Sprintf("%s [%s]: %s fails where the reference succeeds: %s", s.Ctor, s.Cfg, what, w), nil)
 			}
 			return
 		}
 		if op, d := diffOuts(ref, got); op != "" {
+			copyFailed = copyFailed || class != "original-nondeterministic" && class != "original-disturbed"
 			c.Violate(sigOf(s.Ctor, class, op), fmt.Sprintf("%s [%s]: %s differs from the reference: %s", s.Ctor, s.Cfg, what, d), nil)
 		}
 	}
@@ -286,7 +296,9 @@ func runSubject(c *eng.Ctx, s *subject) {
 	// (5) copy of a used original, copy of a copy
 	var cp2, cp3 any
 	if c.Try(sigOf(s.Ctor, "construct"), func() { cp2 = s.Copy(o); cp3 = s.Copy(cp) }) {
-		c.Try(sigOf(s.Ctor, "structural"), func() { structural(c, s, o, cp2, false) })
+		if !s.FreshStructOnly {
+			c.Try(sigOf(s.Ctor, "structural"), func() { structural(c, s, o, cp2, false) })
+		}
 		judge("a copy of a used original", refC, tryWork(s.Work, cp2), "copy-of-used-differs")
 		judge("a copy of a copy", refC, tryWork(s.Work, cp3), "copy-of-copy-differs")
 	}
